@@ -34,9 +34,16 @@ MANIFEST = dict(
           "declarations, PIs and script/style contents untouched); attrs_sorted / attrs_sorted_deep / canon_perm (insertion order of "
           "attributes irrelevant, plain and pretty); htmlAlts_exclusive (decide +kernel over the alternatives parsed back from the "
           "live entity regex) -> regex_order_irrelevant -> hash_seed_independent (listing order of regex alternatives, of "
-          "cdata_containing_tags and of attributes does not reach the output). Tie: the constructor grid, formatter_for_name grid and "
+          "cdata_containing_tags and of attributes does not reach the output); supplied_object/function/name (every output method = "
+          "resolve the formatter argument by the flavour, then render; KeyError from every method for unregistered names); "
+          "custom_subst_scope_pretty; flavour_rule (_is_xml = nearest explicit known_xml on the way to the root, else the root's is_xml), "
+          "output_calls_leave_no_trace + render_depends_on_current_tree_only (sessions of edits and output calls: an output call returns "
+          "what it returns on the documents produced by the edits alone, flavour taken from the element's current position). Tie: the constructor grid, formatter_for_name grid and "
           "rendering through every entry point on generated trees of both flavours, three-way: real code / direct oracle / Lean model; "
-          "instrumented custom functions; all attribute insertion orders; subprocess runs under >= 8 PYTHONHASHSEED values: whole documents "
+          "instrumented custom functions; all attribute insertion orders; histories (hand-made builder-less elements put into a tree of one "
+          "flavour, read-only operations there, moved into a tree of another flavour, rendered from the element, its descendants, its "
+          "parent and the root with names/None/bare functions: equal to a never-touched twin, to the oracle for the current flavour and to "
+          "the model's walk over the known_xml chain); subprocess runs under >= 8 PYTHONHASHSEED values: whole documents "
           "byte-identical, and every multi-code-point entity key / every first code point of one followed by each second code point and "
           "other combining marks, as text and attribute value under 'html' and 'html5', equal to the independently computed "
           "longest-key substitution for every seed (regex_particles_regular + htmlAlts_exclusive are the matching table obligations)."),
@@ -1284,6 +1291,241 @@ def stream_entity_seeds(ctx):
                                 f"'html5', {len(seeds)} PYTHONHASHSEED values ({len(texts)} texts)")
 
 
+# ---------------------------------------------------------------------------------------------------------------------
+# histories: hand-made (builder-less) elements rendered in one tree, moved into a tree of the other flavour, rendered again
+# ---------------------------------------------------------------------------------------------------------------------
+TOUCHES = ["str", "decode-fn", "decode-name", "prettify-name", "output_ready", "output_ready-fn", "format_string", "copy",
+           "encode", "decode_contents-fn", "parent-decode", "is_xml"]
+MOVES = ["append", "extract+append", "insert0", "replace_with", "insert_before", "extend"]
+ROOTS = ["htmlsoup", "xmlsoup", "xmltag", "htmltag", "baretag"]   # baretag: Tag(name="root") with no flavour at all
+
+
+def make_root(kind, flags):
+    """-> (root object, container into which things are put); records the explicit flavour of every node made"""
+    e = E()
+    el = e["el"]
+    if kind in ("htmlsoup", "xmlsoup"):
+        soup = e["bs4"].BeautifulSoup("<div><i>ph</i></div>", builder=make_builder("html" if kind == "htmlsoup" else "xhtml"))
+        for n, _ in all_nodes(soup):
+            flags[id(n)] = (kind == "xmlsoup") if is_tag(n) else None
+        return soup, soup.div
+    fl = {"xmltag": True, "htmltag": False, "baretag": None}[kind]
+    root = el.Tag(name="root", is_xml=fl) if fl is not None else el.Tag(name="root")
+    flags[id(root)] = fl
+    ph = el.Tag(name="i")
+    flags[id(ph)] = None
+    root.append(ph)
+    return root, root
+
+
+def make_hand(spec, flags):
+    e = E()
+    el = e["el"]
+    if spec[0] == "S":
+        n = getattr(el, spec[1])(spec[2])
+        flags[id(n)] = None
+        return n
+    _, name, flag, attrs, kids = spec
+    kw = {} if flag is None else {"is_xml": flag}
+    t = el.Tag(name=name, attrs=dict((k, v) for k, v in attrs), **kw)
+    flags[id(t)] = flag
+    for k in kids:
+        t.append(make_hand(k, flags))
+    return t
+
+
+def gen_hand(r, depth=0):
+    name = r.choice(["script", "style", "p", "b", "br", "pre", "div"])
+    attrs = [[k, r.choice(["", "v", "a&b", "x<y", None])] for k in r.sample(["a", "b", "id"], r.choice([0, 1, 2]))]
+    kids = []
+    for _ in range(r.randint(0 if name == "br" else 1, 3)):
+        if depth < 2 and r.random() < 0.3:
+            kids.append(gen_hand(r, depth + 1))
+        else:
+            kids.append(["S", r.choice(["NavigableString", "NavigableString", "NavigableString", "Comment", "CData"]),
+                         r.choice(["if (a < b) c", "x & y", "é<", "1 && 2", " t "])])
+    return ["T", name, r.choice([None, None, None, None, True, False]), attrs, kids]
+
+
+def do_touch(el_, touch):
+    import copy
+    e = E()
+    NS = e["el"].NavigableString
+    strs = [d for d in ([el_] + list(el_.descendants)) if isinstance(d, NS)] if is_tag(el_) else [el_]
+    if touch == "str":
+        str(el_)
+    elif touch == "decode-fn":
+        el_.decode(formatter=e["custom"][0])
+    elif touch == "decode-name":
+        el_.decode(formatter="html")
+    elif touch == "prettify-name":
+        el_.prettify(formatter="minimal")
+    elif touch == "encode":
+        el_.encode(formatter="minimal")
+    elif touch == "decode_contents-fn":
+        el_.decode_contents(formatter=e["custom"][2])
+    elif touch == "output_ready":
+        for s_ in strs:
+            s_.output_ready()
+    elif touch == "output_ready-fn":
+        for s_ in strs:
+            s_.output_ready(e["custom"][0])
+    elif touch == "format_string":
+        for s_ in strs:
+            s_.format_string(s_, "minimal")
+    elif touch == "copy":
+        copy.copy(el_)
+    elif touch == "parent-decode":
+        if el_.parent is not None:
+            el_.parent.decode(formatter="minimal")
+    elif touch == "is_xml":
+        el_._is_xml
+        for s_ in strs:
+            s_._is_xml
+
+
+def do_move(el_, container, move):
+    if move == "append":
+        container.append(el_)
+    elif move == "extract+append":
+        el_.extract()
+        container.append(el_)
+    elif move == "insert0":
+        container.insert(0, el_)
+    elif move == "replace_with":
+        container.contents[0].replace_with(el_)
+    elif move == "insert_before":
+        container.contents[0].insert_before(el_)
+    elif move == "extend":
+        container.extend([el_])
+
+
+def play_history(sc, touched):
+    """-> (final root, the moved element, flags) for a scenario; `touched` = also perform the read-only operations"""
+    flags = {}
+    el_ = make_hand(sc["hand"], flags)
+    root = None
+    for step in sc["steps"]:
+        root, container = make_root(step["root"], flags)
+        do_move(el_, container, step["move"])
+        if touched:
+            for t in step["touches"]:
+                do_touch(el_, t)
+    return root, el_, flags
+
+
+def flavour_of(n, flags):
+    """documented rule, from what the harness recorded at construction (never from known_xml)"""
+    x = n
+    while True:
+        f = flags.get(id(x))
+        if f is not None:
+            return f
+        if x.parent is None:
+            return bool(getattr(x, "is_xml", False)) if type(x).__name__ == "BeautifulSoup" else False
+        x = x.parent
+
+
+def chain_of(n, flags):
+    out, x = [], n
+    while x is not None:
+        f = flags.get(id(x))
+        out.append("N" if f is None else ("1" if f else "0"))
+        root = x
+        x = x.parent
+    return ",".join(out), ("1" if type(root).__name__ == "BeautifulSoup" and root.is_xml else "0")
+
+
+def path_of(n):
+    p = []
+    while n.parent is not None:
+        p.append(next(i for i, k in enumerate(n.parent.contents) if k is n))
+        n = n.parent
+    return list(reversed(p))
+
+
+HIST_FMTS = [{"how": "name", "name": "minimal"}, {"how": "name", "name": "html"}, {"how": "name", "name": "html5"},
+             {"how": "name", "name": None}, {"how": "fn", "es": "c0"}, {"how": "fn", "es": "c2"}, {"how": "fn", "es": "xml"}]
+
+
+def history_observations(root, el_, flags, r):
+    """[(path from root, entry, fmt index)] deterministic in r"""
+    recv = [el_] + ([d for d in el_.descendants] if is_tag(el_) else [])
+    recv += [el_.parent, root]
+    obs = []
+    for n in recv:
+        if n is None:
+            continue
+        entries = ["decode", "prettify", "decode_contents"] if is_tag(n) else ["output_ready", "format_string"]
+        for fi in range(len(HIST_FMTS)):
+            obs.append((path_of(n), r.choice(entries), fi))
+    return obs
+
+
+def gen_scenario(r):
+    a, b = r.sample(ROOTS, 2)
+    steps = [{"root": a, "move": r.choice(MOVES), "touches": r.sample(TOUCHES, r.randint(1, 3))},
+             {"root": b, "move": r.choice(MOVES), "touches": []}]
+    if r.random() < 0.3:
+        steps[1]["touches"] = r.sample(TOUCHES, r.randint(1, 2))
+        steps.append({"root": r.choice(ROOTS), "move": r.choice(MOVES), "touches": []})
+    return {"hand": gen_hand(r), "steps": steps, "obs_seed": r.randrange(10 ** 9)}
+
+
+def check_history(ctx, batch, sc, stream="history"):
+    import random as _random
+    outs = {}
+    for touched in (False, True):
+        root, el_, flags = play_history(sc, touched)
+        obs = history_observations(root, el_, flags, _random.Random(sc["obs_seed"]))
+        res = []
+        for path, entry, fi in obs:
+            n = node_at(root, tuple(path))
+            fs = HIST_FMTS[fi]
+            real = show(run_entry(n, entry, real_formatter_arg(fs)))
+            xml = flavour_of(n, flags)
+            want = show(oracle_entry(n, entry, intended_for(fs, xml)))
+            res.append((path, entry, fi, real, want, xml, n, flags))
+        outs[touched] = res
+    ctx.count("history:scenarios")
+    for k, ((path, entry, fi, real, want, xml, n, flags), (_, _, _, real0, want0, _, _, _)) in enumerate(zip(outs[True], outs[False])):
+        fs = HIST_FMTS[fi]
+        case = {"op": "history", "scenario": sc, "observation": k, "path": path, "entry": entry, "fmt": fs}
+        hand_made = flags.get(id(n)) is None
+        ctx.case(("history", json.dumps(case, sort_keys=True, default=str)) if hand_made else None)
+        ctx.count(f"history:flavour:{'xml' if xml else 'html'}:{'hand' if hand_made else 'built'}")
+        if real != real0:
+            report(ctx, stream, f"output through {entry} depends on output calls made earlier (before the element was moved)", case=case,
+                   expected=real0, observed=real, kf=None)
+        elif real != want:
+            report(ctx, stream, f"output through {entry} does not follow the flavour of the tree the element is in now", case=case,
+                   expected=want, observed=real, kf=None)
+        if entry == "format_string":
+            continue
+        mode, prefix, pt = model_mode(n, entry)
+        ch, ra = chain_of(n, flags)
+        g = graph_tokens(n, ["html5", "c0", "c1", "c2", "c3", "c4"])
+        batch.add(f"c15 runat {ch} {ra} {fmt_tok(fs)} {mode} {pt} {len(g)} {' '.join(g)} {tree_tokens(n)}".replace("  ", " "),
+                  real, prefix, case, real == want and real == real0)
+
+
+def stream_history(ctx, batch, n):
+    r = ctx.rng("history")
+    # the documented example first: a hand-made <script> rendered inside an HTML soup, then moved under an XML-flavoured root
+    for touch in TOUCHES:
+        for mv in ("append", "extract+append"):
+            for a, b in (("htmlsoup", "xmltag"), ("xmltag", "htmlsoup"), ("htmlsoup", "xmlsoup"), ("xmlsoup", "baretag")):
+                check_history(ctx, batch, {"hand": ["T", "script", None, [["a", ""]], [["S", "NavigableString", "if (a < b) c"]]],
+                                           "steps": [{"root": a, "move": mv, "touches": [touch]}, {"root": b, "move": "append", "touches": []}],
+                                           "obs_seed": 1})
+    for _ in range(n):
+        check_history(ctx, batch, gen_scenario(r))
+        if len(batch.lines) > 4000:
+            batch.flush()
+    ctx.exhaustive_parts.append(f"histories: every read-only operation ({len(TOUCHES)}) x 2 ways of moving x 4 flavour changes on a hand-made "
+                                "<script>, rendered from the element, its string, its new parent and the root with 7 formatter arguments")
+
+
 def stream_corpus(ctx, batch):
     from .common import CORPUS
     d = CORPUS / "C15"
@@ -1320,6 +1562,7 @@ def run(ctx: Ctx):
     stream_option_grid(ctx, batch)
     stream_render(ctx, batch, ctx.n(600, 5000))
     stream_attr_orders(ctx, batch, ctx.n(120, 800))
+    stream_history(ctx, batch, ctx.n(250, 2500))
     batch.flush()
     stream_call_log(ctx, ctx.n(800, 6000))
     stream_subst(ctx)
@@ -1379,6 +1622,26 @@ def replay(path):
         b = build_tree(c["recipe_b"]).decode(formatter=fa)
         print("same attributes inserted in two orders:\n ", ascii(a), "\n ", ascii(b))
         return 0 if a == b else 1
+    if op == "history":
+        import random as _random
+        sc = c["scenario"]
+        rows = {}
+        for touched in (False, True):
+            root, el_, flags = play_history(sc, touched)
+            path, entry, fi = history_observations(root, el_, flags, _random.Random(sc["obs_seed"]))[c["observation"]]
+            n = node_at(root, tuple(path))
+            fs = HIST_FMTS[fi]
+            rows[touched] = (show(run_entry(n, entry, real_formatter_arg(fs))), show(oracle_entry(n, entry, intended_for(fs, flavour_of(n, flags)))),
+                             flavour_of(n, flags), root)
+        print("hand-made element:", sc["hand"])
+        print("steps (root kind, how it was moved in, read-only operations performed there):", sc["steps"])
+        print("final tree:", ascii(rows[True][3].decode(formatter=None))[:400])
+        print("receiver path:", c["path"], "entry point:", c["entry"], "formatter:", c["fmt"], "| flavour of the receiver now:",
+              "xml" if rows[True][2] else "html")
+        print("implementation, read-only operations performed :", ascii(rows[True][0]))
+        print("implementation, never rendered before          :", ascii(rows[False][0]))
+        print("property demands (current flavour)             :", ascii(rows[True][1]))
+        return 0 if rows[True][0] == rows[False][0] == rows[True][1] else 1
     if op == "entity-seed":
         import html as pyhtml
         keys = entity_keyset()
